@@ -91,30 +91,51 @@ structure TagWF (c : Cls) : Prop where
   clsTag : tagOk c.name = true ∧ isRaw (lower c.name) = false ∧ he.contains (lower c.name) = false
   attrTag : ∀ a ∈ c.spec, tagOk (upper a.name) = true ∧ isRaw (lower (upper a.name)) = false ∧
     he.contains (lower (upper a.name)) = false ∧ upper a.name ≠ c.name
+  ungroomTag : ∀ u, c.ungroom = some u → tagOk u.toTag = true ∧ isRaw (lower u.toTag) = false ∧
+    he.contains (lower u.toTag) = false ∧ u.toTag ≠ c.name
 
 /-- the converters write non-empty, trimmed texts on the domain -/
 def TextOk : Prop :=
   ∀ k r v s, Dom k r v → cv.unconvert S.enums k r v = .ok (.str s) → s ≠ [] ∧ trimmedB s = true
 
-/-- the written form of one node, with its children described -/
+/-- the children `to_etree` ends up with: the emitted ones after the `ungroom` rename -/
+def ungroomed (c : Cls) (ts : List Tree) : List Tree :=
+  match c.ungroom with
+  | some u => renameFirst u ts
+  | none => ts
+
+/-- the written form of one node, with its (pre-rename) children described -/
 theorem node_written (laws : ConvLaws cv S.enums esc Dom) (c : Cls) (ci : Nat) (fields : List (Str × Node))
     (items : List Node) (ok : NodeOk S cv esc Dom c ci fields items)
     (ihF : ∀ n v, (n, v) ∈ fields → v.isAgg = true → RT S cv esc v)
-    (ihI : ∀ m ∈ items, RT S cv esc m) :
-    ∃ ts, toEtree S cv (.agg ci fields items) = .ok (Tree.node c.name none none ts) ∧
-      ∀ ch ∈ ts, ChildOk S cv c fields items ch := by
-  have hnd := specNoList_nodup c ok.wf.nodup
-  have ctx : RTCtx S cv esc Dom c fields items :=
-    { wf := ok.wf, hel := ok.hel, hg := ok.hg, laws := laws
-      fieldOk := fun a ha hl hu =>
-        ok.fm.lookup hnd a (by simp [specNoList, ha, hl]) hu
-      subRT := fun a _ v hv hagg => ihF a.name v (lookup_mem hv) hagg
-      itemsOk := fun m hm => ⟨ok.itemsEx m hm, ihI m hm⟩ }
-  obtain ⟨ts, acc', hemit, _, _, _, hch⟩ :=
-    emit_fold S cv esc Dom c fields items ctx c.spec [] true Accum.init (by simp)
+    (ihI : ∀ m ∈ items, m.isAgg = true → RT S cv esc m) :
+    ∃ ts, toEtree S cv (.agg ci fields items) = .ok (Tree.node c.name none none (ungroomed c ts)) ∧
+      ∀ ch ∈ ts, ChildOk S cv (noGroom c) fields items ch := by
+  have ctx : RTCtx S cv esc Dom (noGroom c) fields items := ok.ctx S cv esc Dom laws ihF ihI
+  obtain ⟨ts, acc', hemit0, _, _, _, hch⟩ :=
+    emit_fold S cv esc Dom (noGroom c) fields items ctx c.spec [] true Accum.init (by simp [noGroom])
       (by simp) (by intro k hk; simp [Accum.init, hasKey, lookup] at hk) (by simp [PrevOk, Accum.init])
+  have hemit : emitSpec S cv c fields (fieldTrees S cv fields) items (itemTrees S cv items) c.spec true = .ok ts := by
+    rw [← emitSpec_noGroom]; exact hemit0
   refine ⟨ts, ?_, hch⟩
-  simp [toEtree, assemble, ok.hc, hemit, ok.hug, bind, Except.bind, pure, Except.pure]
+  cases hu : c.ungroom <;>
+    simp [toEtree, assemble, ok.hc, hemit, hu, ungroomed, bind, Except.bind, pure, Except.pure]
+
+theorem mem_renameFirst (u : Rename) : ∀ (L : List Tree) (ch : Tree), ch ∈ renameFirst u L →
+    ch ∈ L ∨ ∃ x tl cs, Tree.node u.fromTag x tl cs ∈ L ∧ ch = Tree.node u.toTag x tl cs
+  | [], ch, h => by simp [renameFirst] at h
+  | .node t x tl cs :: rest, ch, h => by
+    by_cases ht : t = u.fromTag
+    · simp only [renameFirst, ht, if_true, List.mem_cons] at h
+      rcases h with rfl | h
+      · exact Or.inr ⟨x, tl, cs, by simp [ht], rfl⟩
+      · exact Or.inl (by simp [h])
+    · simp only [renameFirst, ht, if_false, List.mem_cons] at h
+      rcases h with rfl | h
+      · exact Or.inl (by simp)
+      · rcases mem_renameFirst u rest ch h with h1 | ⟨x', tl', cs', h1, h2⟩
+        · exact Or.inl (by simp [h1])
+        · exact Or.inr ⟨x', tl', cs', by simp [h1], h2⟩
 
 theorem leafTag_agg (tag : Str) (tl : Option Str) (cs : List Tree) : Spec.leafTag (.node tag none tl cs) = none := rfl
 
@@ -131,7 +152,7 @@ theorem node_good (laws : ConvLaws cv S.enums esc Dom) (htext : TextOk S cv Dom)
     (c : Cls) (ci : Nat) (fields : List (Str × Node)) (items : List Node)
     (ok : NodeOk S cv esc Dom c ci fields items) (htag : TagWF he c)
     (ihF : ∀ n v, (n, v) ∈ fields → v.isAgg = true → RT S cv esc v)
-    (ihI : ∀ m ∈ items, RT S cv esc m)
+    (ihI : ∀ m ∈ items, m.isAgg = true → RT S cv esc m)
     (gF : ∀ n v t, (n, v) ∈ fields → v.isAgg = true → toEtree S cv v = .ok t → Good he t = true)
     (gI : ∀ m t, m ∈ items → toEtree S cv m = .ok t → Good he t = true) :
     ∀ t, toEtree S cv (.agg ci fields items) = .ok t → Good he t = true := by
@@ -139,12 +160,14 @@ theorem node_good (laws : ConvLaws cv S.enums esc Dom) (htext : TextOk S cv Dom)
   obtain ⟨ts, hts, hch⟩ := node_written S cv esc Dom laws c ci fields items ok ihF ihI
   rw [hts] at ht; injection ht with ht; subst ht
   have hnd := specNoList_nodup c ok.wf.nodup
-  -- every child is Good, and a leaf child's tag differs from the class name
-  have hchild : ∀ ch ∈ ts, Good he ch = true ∧ Spec.leafTag ch ≠ some c.name := by
+  -- every (pre-rename) child is Good, and a leaf child's tag differs from the class name
+  have hchild0 : ∀ ch ∈ ts, Good he ch = true ∧ Spec.leafTag ch ≠ some c.name := by
     intro ch hmem
-    rcases hch ch hmem with ⟨a, ha, x, s, hl, hu, hx, hv, hunc, rfl⟩ | ⟨v, hvmem, hagg, hvt⟩
-    · obtain ⟨t1, t2, t3, t4⟩ := htag.attrTag a ha
-      obtain ⟨w, hw, hfo⟩ := ok.fm.lookup hnd a (by simp [specNoList, ha, hl]) hu
+    rcases hch ch hmem with ⟨a, ha, x, s, hl, hu, hx, hv, hunc, rfl⟩ | ⟨v, hvmem, hagg, hvt⟩ |
+      ⟨a, ha, inner, ireq, x, s, hel, hk, hxi, hx, hunc, rfl⟩
+    · have ha : a ∈ c.spec := ha
+      obtain ⟨t1, t2, t3, t4⟩ := htag.attrTag a ha
+      obtain ⟨w, hw, hfo⟩ := ok.fm.lookup hnd a (by simp [specNoList]; exact ⟨ha, hl⟩) hu
       rw [hv] at hw; injection hw with hw; subst hw
       have hdom : Dom a.kind a.required x := by
         unfold FieldOk at hfo
@@ -178,7 +201,7 @@ theorem node_good (laws : ConvLaws cv S.enums esc Dom) (htext : TextOk S cv Dom)
         have hrt : RT S cv esc (.agg cj f i) := by
           rcases hvmem with ⟨n, hn⟩ | hi
           · exact ihF n _ hn rfl
-          · exact ihI _ hi
+          · exact ihI _ hi rfl
         -- its root has text none by the shape of `assemble`
         have : ch.text = none := by
           simp only [toEtree, assemble] at hvt
@@ -189,11 +212,45 @@ theorem node_good (laws : ConvLaws cv S.enums esc Dom) (htext : TextOk S cv Dom)
         | node tg tx tl cs =>
           simp only [Tree.text] at this; subst this
           simp [Spec.leafTag]
+    · -- a member of an `ElementList`: a leaf under the list element's tag
+      obtain ⟨t1, t2, t3, t4⟩ := htag.attrTag a ha
+      obtain ⟨y, hy, _, hdom⟩ := ok.elItems hel a ha inner ireq hk _ hxi
+      injection hy with hy; subst hy
+      obtain ⟨hs1, hs2⟩ := htext inner ireq x s hdom hunc
+      refine ⟨?_, ?_⟩
+      · have hne : s.isEmpty = false := by cases s <;> simp_all
+        have t3' : lower (upper a.name) ∉ he := by simpa using t3
+        simp [Good, GoodList, t1, t2, t3', hne, hs2, Spec.leafTag]
+      · simp only [Spec.leafTag]
+        intro h; injection h with h; exact t4 h
+  -- … and so is every child after the rename
+  have hchild : ∀ ch ∈ ungroomed c ts, Good he ch = true ∧ Spec.leafTag ch ≠ some c.name := by
+    rcases ok.gr with ⟨_, hug⟩ | ⟨r, u, hg, hug, hinv1, hinv2, hdot, hsrc, a, ha, han, hal, hasub⟩
+    · simp only [ungroomed, hug]; exact hchild0
+    · simp only [ungroomed, hug]
+      intro ch' hmem
+      rcases mem_renameFirst u ts ch' hmem with h0 | ⟨x, tl, cs, h0, rfl⟩
+      · exact hchild0 ch' h0
+      · obtain ⟨g0, _⟩ := hchild0 _ h0
+        obtain ⟨_, hleaf⟩ := ok.child_facts S cv esc Dom laws _ (hch _ h0)
+        obtain ⟨s, hs, _⟩ := hleaf a ha (by simp [Tree.tag, han]) hal hasub
+        simp only [Tree.text] at hs; subst hs
+        obtain ⟨u1, u2, u3, u4⟩ := htag.ungroomTag u hug
+        simp only [Good, Bool.and_eq_true] at g0
+        obtain ⟨⟨⟨⟨⟨⟨_, _⟩, _⟩, g4⟩, g5⟩, _⟩, g7⟩ := g0
+        have hcs : cs = [] := by simpa using g5.1.1
+        subst hcs
+        have u3' : lower u.toTag ∉ he := by simpa using u3
+        refine ⟨?_, ?_⟩
+        · simp only [Good, Bool.and_eq_true]
+          refine ⟨⟨⟨⟨⟨⟨u1, by simp [u2]⟩, by simp [u3']⟩, g4⟩, g5⟩, by simp⟩, g7⟩
+        · simp only [Spec.leafTag]
+          intro h; injection h with h; exact u4 h
   obtain ⟨h1, h2, h3⟩ := htag.clsTag
   simp only [Good, h1, h2, h3, Bool.not_false, Bool.and_self, Option.isNone_none, Bool.true_and]
   rw [Bool.and_eq_true]
   constructor
-  · cases hl : ts.getLast? with
+  · cases hl : (ungroomed c ts).getLast? with
     | none => rfl
     | some last =>
       have := (hchild last (getLast?_mem hl)).2
@@ -230,7 +287,9 @@ mutual
       obtain ⟨hw, hr⟩ := h
       simp only [List.mem_cons] at hm
       rcases hm with rfl | hm
-      · exact good_node laws htext htag m hw t ht
+      · cases m with
+        | val x => simp [toEtree] at ht
+        | agg cj f i => exact good_node laws htext htag _ (hw rfl) t ht
       · exact good_items laws htext htag r hr m t hm ht
 end
 
@@ -246,13 +305,20 @@ end
 def tagWFb (he : List Str) (c : Cls) : Bool :=
   tagOk c.name && !isRaw (lower c.name) && !he.contains (lower c.name) &&
   c.spec.all (fun a => tagOk (upper a.name) && !isRaw (lower (upper a.name)) &&
-    !he.contains (lower (upper a.name)) && upper a.name != c.name)
+    !he.contains (lower (upper a.name)) && upper a.name != c.name) &&
+  (match c.ungroom with
+   | some u => tagOk u.toTag && !isRaw (lower u.toTag) && !he.contains (lower u.toTag) && u.toTag != c.name
+   | none => true)
 
 theorem tagWFb_tagWF (he : List Str) (c : Cls) (h : tagWFb he c = true) : TagWF he c := by
   simp only [tagWFb, Bool.and_eq_true, Bool.not_eq_true', List.all_eq_true, bne_iff_ne, ne_eq] at h
-  obtain ⟨⟨⟨h1, h2⟩, h3⟩, h4⟩ := h
-  exact ⟨⟨h1, h2, h3⟩, fun a ha => by
-    obtain ⟨⟨⟨a1, a2⟩, a3⟩, a4⟩ := h4 a ha
-    exact ⟨a1, a2, a3, a4⟩⟩
+  obtain ⟨⟨⟨⟨h1, h2⟩, h3⟩, h4⟩, h5⟩ := h
+  refine ⟨⟨h1, h2, h3⟩, fun a ha => ?_, fun u hu => ?_⟩
+  · obtain ⟨⟨⟨a1, a2⟩, a3⟩, a4⟩ := h4 a ha
+    exact ⟨a1, a2, a3, a4⟩
+  · rw [hu] at h5
+    simp only [Bool.and_eq_true, Bool.not_eq_true', bne_iff_ne, ne_eq] at h5
+    obtain ⟨⟨⟨b1, b2⟩, b3⟩, b4⟩ := h5
+    exact ⟨b1, b2, b3, b4⟩
 
 end Ofx.Pipeline
